@@ -1,9 +1,10 @@
 #!/usr/bin/env python3
-"""tools/seed_prompt.py <ID> <letter> [avoid text] : create the scratch worktree /tmp/seed/<ID>-<letter>-repo and
+"""tools/seed_prompt.py <ID> <letter> [avoid text] [target file] : create the scratch worktree /tmp/seed/<ID>-<letter>-repo and
 print the prompt for an independent seeding worker (it sees the property text only, nothing of /verif)."""
 import json, os, subprocess, sys
 pid, letter = sys.argv[1], sys.argv[2]
 avoid = sys.argv[3] if len(sys.argv) > 3 else ""
+target = sys.argv[4] if len(sys.argv) > 4 else ""
 prop = next(json.loads(l) for l in open("/verif/properties.jsonl") if json.loads(l)["id"] == pid)
 sd = f"/tmp/seed/{pid}-{letter}"
 wt = f"{sd}-repo"
@@ -34,7 +35,7 @@ Requirements for the change:
   particular multi-step sequence of operations, an unusual but legal input, a boundary value, a particular asset kind
   / ordering / configuration, or two cooperating sites that each look fine alone. All 318 existing tests must still
   pass with the change applied (run them).{(' Avoid these ideas, which have been used already: ' + avoid) if avoid else ''}
-* Do not edit or delete existing tests.
+* Do not edit or delete existing tests.{(' Put the change in this file (it is one of the files the property is anchored in; a second cooperating edit elsewhere is allowed if your idea needs it): ' + target) if target else ''}
 
 Deliverables, all written to {sd}/ :
   patch.diff  – `git diff` of the change alone (applies with `git apply` at the repository root on a clean tree)
